@@ -27,6 +27,9 @@ func newEnv(in io.Reader, out io.Writer) *object.Env {
 	return env
 }
 
+// evalFuel bounds the number of Eval steps of one evaluation (hook: build tag verif).
+var evalFuel int64 = 150000
+
 type evalResult struct {
 	Kind   string `json:"kind"` // value | error | syntax | panic
 	Type   string `json:"type,omitempty"`
@@ -68,8 +71,14 @@ func evalIn(src string, env *object.Env, out *bytes.Buffer) (res evalResult) {
 	if err != nil {
 		return evalResult{Kind: "syntax", ErrMsg: err.Error(), Out: out.String()}
 	}
+	evaluator.VerifFuel = evalFuel
 	v := evaluator.Eval(node, env)
-	return describe(v, out)
+	evaluator.VerifFuel = -1
+	r := describe(v, out)
+	if r.Kind == "error" && r.ErrMsg == evaluator.VerifOutOfFuelMsg {
+		r.Kind = "fuel"
+	}
+	return r
 }
 
 func describe(v object.PanObject, out *bytes.Buffer) evalResult {
